@@ -34,3 +34,37 @@ Example orth_ok_ex : orth_ok 2%nat [1; 0; 0; 1; 0; 0] 0 = true /\ orth_ok 2%nat 
 Proof. split; vm_compute; reflexivity. Qed.
 Example projection_ex : project_entry [2; 2]%nat [1; 2]%nat [1; 2; 3; 4] [[1; 0]; [1; 0; 0; 1]] 1%nat == 2.
 Proof. vm_compute. reflexivity. Qed.
+
+(* ------------------------------------------------------------------ Gaussian rationals *)
+Lemma cwithin_sound x tol : cwithin x tol = true -> Qabs (fst x) <= tol /\ Qabs (snd x) <= tol.
+Proof. unfold cwithin. intros H. apply andb_prop in H. destruct H as [H1 H2]. split; now apply within_sound. Qed.
+(* real and imaginary part of (M^H M - I)[a, b] are within tol *)
+Lemma corth_ok_sound k M tol : corth_ok k M tol = true ->
+  forall a b, (a < k)%nat -> (b < k)%nat ->
+  Qabs (fst (csub (cgram_entry k M a b) (cdelta a b))) <= tol /\ Qabs (snd (csub (cgram_entry k M a b) (cdelta a b))) <= tol.
+Proof.
+  unfold corth_ok. intros H a b Ha Hb. rewrite forallb_forall in H.
+  specialize (H a ltac:(apply in_seq; lia)). rewrite forallb_forall in H. specialize (H b ltac:(apply in_seq; lia)).
+  now apply cwithin_sound.
+Qed.
+Lemma cprojection_ok_sound shape ranks X core fs tol : cprojection_ok shape ranks X core fs tol = true ->
+  length core = prod ranks /\
+  forall j, (j < prod ranks)%nat ->
+    Qabs (fst (csub (cproject_entry shape ranks X fs j) (nth j core c0))) <= tol /\
+    Qabs (snd (csub (cproject_entry shape ranks X fs j) (nth j core c0))) <= tol.
+Proof.
+  unfold cprojection_ok. cbv zeta. intros H. apply andb_prop in H. destruct H as [H1 H2]. apply andb_prop in H1. destruct H1 as [H1 _].
+  split; [now apply Nat.eqb_eq|]. intros j Hj. rewrite forallb_forall in H2. specialize (H2 j ltac:(apply in_seq; lia)).
+  now apply cwithin_sound.
+Qed.
+(* the arithmetic is the arithmetic of Q[i]: (a + b i)(c + d i) and conjugation *)
+Lemma cmul_spec a b : fst (cmul a b) == fst a * fst b - snd a * snd b /\ snd (cmul a b) == fst a * snd b + snd a * fst b.
+Proof. unfold cmul. cbn [fst snd]. split; apply Qred_correct. Qed.
+Lemma cconj_spec a : fst (cconj a) = fst a /\ snd (cconj a) == - snd a.
+Proof. unfold cconj. cbn [fst snd]. split; [reflexivity | apply Qred_correct]. Qed.
+(* non-vacuity: the 2 x 1 column (1, i)/sqrt2 is not expressible, take (3/5, 4/5 i): unit norm only with the CONJUGATE *)
+Example corth_ok_ex : corth_ok 1%nat [(3 # 5, 0); (0, 4 # 5)] 0 = true.
+Proof. vm_compute. reflexivity. Qed.
+Example cproject_conj_ex : (* X = (i), U = (i): the projection X * conj(U) = 1, not X * U = -1 *)
+  cproject_entry [1]%nat [1]%nat [(0, 1)] [[(0, 1)]] 0%nat = (1, 0).
+Proof. vm_compute. reflexivity. Qed.
